@@ -318,6 +318,16 @@ theorem spawn_failure_turns_one_client_away (cfg : Cfg) (hk : cfg.kind = .thread
     obtain ⟨u, h1, h2, _⟩ := connect_served hacc' hne' g (by rw [hne g hgk]; exact hga)
     exact ⟨u, h1, h2⟩
 
+/-! ### exception replies naming SystemExit & co. (`C16:pool:peer-named-baseexception-kills-workers`, repaired) -/
+
+/-- **the obligation**: a BaseException the PEER names (an exception reply naming builtins.SystemExit / KeyboardInterrupt /
+GeneratorExit, rebuilt by vinegar and raised where the server waited for that reply) costs the pool neither a worker - the
+live `_serve_clients` survives it and serves the connection again - nor its accept loop; a local `sys.exit` still
+propagates.  Measured on the live functions on every run.  The automaton has no dying workers: such a frame is a frame
+that raises out of `serve()` (`Item.bad`: on the pool the connection stays, elsewhere it ends), which is what the repaired
+code does; on a tree where this obligation fails the run theorems for the pool say nothing about the code -/
+theorem pool_survives_peer_base_exception : Gen.Srv.poolSurvivesPeerBaseException = true := by decide
+
 /-- everything the property says: in full for the threaded and forking servers; isolation for every kind; for the pool
 under the two hypotheses the counterexamples show to be necessary -/
 theorem C16_partial (cfg : Cfg) :
